@@ -3,7 +3,7 @@
 From Coq Require Import NArith ZArith List Bool.
 Import ListNotations.
 Require Import UV.Gen.Consts UV.Mcount.Model UV.Mcount.Forest UV.Mcount.PlainStep UV.Mcount.PlainProofs
-  UV.Mcount.Restore UV.Mcount.SelectSpec UV.Mcount.Select UV.Mcount.Embed UV.Mcount.EmbedOver UV.Mcount.EmbedMore UV.Mcount.Check UV.Mcount.SelectSpec2 UV.Mcount.Select2 UV.Mcount.Method.
+  UV.Mcount.Restore UV.Mcount.SelectSpec UV.Mcount.Select UV.Mcount.Embed UV.Mcount.EmbedOver UV.Mcount.EmbedMore UV.Mcount.Check UV.Mcount.SelectSpec2 UV.Mcount.Select2 UV.Mcount.Method UV.Mcount.Finish.
 Local Open Scope N_scope.
 
 (* The filter state after a function returns equals the state before it was called - for EVERY
@@ -201,3 +201,40 @@ Theorem C05_matches_documented_with_size_filter_Z : forall tg szf fm hc lm gd th
   flat_map (sel2 tg szf hc lm (x02z fm gd thr gz) 0) f.
 Proof. exact run_forest_sel2_z. Qed.
 Print Assumptions C05_matches_documented_with_size_filter_Z.
+
+(* ---------------------------------------------------------------- the finish trigger (-T f@finish) *)
+(* Without a finish trigger in the table the run with the trigger modelled ([exec_f]) is the ordinary run: every theorem
+   above speaks about it. *)
+Theorem C05_finish_absent_same_run : forall c, (forall a, t_finish (trig_of c a) = false) ->
+  forall es s hk, exec_f c es (s, hk, false) = (exec c es (s, hk), false).
+Proof. exact exec_f_nofinish. Qed.
+Print Assumptions C05_finish_absent_same_run.
+
+(* finish truncates the stream: for EVERY configuration, once the trigger fires (events [p] without a firing entry, then
+   the entry of a function whose trigger is looked up and has the finish action) the state is the one the finishing
+   entry leaves, whatever the program does afterwards ([q]) ... *)
+Theorem C05_finish_truncates : forall c p a t q s hk s' hk',
+  exec_f c p (s, hk, false) = (s', hk', false) -> finish_fires c s' a = true ->
+  exec_f c (p ++ Enter a t :: q) (s, hk, false) = (finish_enter c s' a t, hk', true).
+Proof. exact finish_truncates. Qed.
+Print Assumptions C05_finish_truncates.
+
+(* ... and the finishing entry itself adds ENTRY records only (the pending ones of the open calls and its own): no EXIT,
+   nothing of a call that is not open *)
+Theorem C05_finish_writes_entries_only : forall c s0 a t,
+  exists recs, out (finish_enter c s0 a t) = out (fst (fst (fst (entry_check c s0 a)))) ++ recs /\
+               Forall (fun r => r_type r = ENTRY) recs.
+Proof. exact finish_writes_entries_only. Qed.
+Print Assumptions C05_finish_writes_entries_only.
+
+(* The code as found carried the trigger out for a rejected function under -finstrument-functions only (`-D 1 -T a@finish`
+   recorded the whole program under -pg); repaired (pg-finish-rejected), both shapes stop at the same entry. *)
+Theorem C05_finish_legacy_refuted :
+  length (out (fst (fst (fold_left (fstep0 (fin_cfg PG)) fin_events (init, [], false))))) = 2%nat /\
+  length (out (fst (fst (fold_left (fstep0 (fin_cfg CYG)) fin_events (init, [], false))))) = 1%nat /\
+  out (fst (fst (exec_f (fin_cfg PG) fin_events (init, [], false)))) =
+  out (fst (fst (exec_f (fin_cfg CYG) fin_events (init, [], false)))) /\
+  out (fst (fst (exec_f (fin_cfg PG) fin_events (init, [], false)))) =
+    [{| r_time := 100; r_type := ENTRY; r_depth := 0; r_addr := 0 |}].
+Proof. exact finish_legacy_refuted. Qed.
+Print Assumptions C05_finish_legacy_refuted.
